@@ -126,7 +126,7 @@ CLAIMED: dict[str, tuple[str, str, str, str, str]] = {
         "TLA+ spec RecvEndpoint (receive loop of the endpoint over an abstract contract-abiding transport; sticky EOF; time budget) model-checked "
         "by TLC over streams x close positions x call histories x timeouts {None,0,>0}; every transport call and recv_packet outcome of the real "
         "StreamEndpoint (scripted transport + fake clock) and AsyncStreamEndpoint (in-memory transport), both receivers, validated by TLC against "
-        "RecvEndpointTrace",
+        "RecvEndpointTrace (blocking scenarios that reported the end of the stream end with one more call after the endpoint's own close)",
         "DESIGN.md section 4 (C03)",
         "TLC proves on the model: packets once and in order, never ahead of the bytes, EOF only after every complete frame was delivered, EOF "
         "sticky without touching the transport again; thousands of seeded executions of the real endpoints are decided event by event against it.",
@@ -192,7 +192,8 @@ CLAIMED: dict[str, tuple[str, str, str, str, str]] = {
         "fault_enumeration",
         "TLA+ spec TLSTruncation (allowed observations of a reader behind a cut ciphertext stream) model-checked by TLC; one live TLS session per "
         "cut offset x standard_compatible x role x {async transport over in-memory pipes, blocking transport behind a forwarding proxy}; observed "
-        "sequences validated by TLC against TLSTruncationTrace; close sends close_notify (independent peer)",
+        "sequences validated by TLC against TLSTruncationTrace (on the library-built TLS clients also what recv_packet answers its caller at the end and "
+        "when asked again: the first answer lasts); close sends close_notify (independent peer)",
         "DESIGN.md section 5 (C09)",
         "Every enumerated cut (quick: all record boundaries +-2 and a stride; thorough: every byte offset) is executed on the real transports and "
         "decided by the TLC-checked trace specification: a cut stream never ends with a clean end-of-stream in standard mode, the complete stream "
@@ -226,7 +227,8 @@ CLAIMED: dict[str, tuple[str, str, str, str, str]] = {
     "C17": (
         "fault_enumeration",
         "TLA+ spec Isolation (containment law: server stays up, healthy clients answered in order, faulty connection closed, hook order; datagram: "
-        "fresh handler) model-checked by TLC; every (hook position x exception class) cell and every connection set-up fault executed on the real "
+        "fresh handler) model-checked by TLC; every (hook position x exception class) cell, every connection set-up fault and a TLS connection dropped "
+        "without close notification after an exchange (copying and buffered protocol; nothing may be thrown into handle()) executed on the real "
         "AsyncTCPNetworkServer (plain + TLS) and AsyncUDPNetworkServer with two healthy clients before/during/after the fault; merged logs validated "
         "by TLC against IsolationTrace",
         "DESIGN.md section 7 (C17)",
@@ -300,7 +302,7 @@ def build() -> dict:
                 "path": "/verif/vf/extra.py",
                 "serves_properties": [],
                 "kind_free_text": "specifications beyond the listed properties (FutureBridge.tla: lowlevel.futures.unwrap_future; TaskHandle.tla: Task.join / "
-                "join_or_cancel / wait of the asyncio backend; Endpoint.tla: the stream packet endpoints, async and blocking; exact replay of TLC behaviours; SuiteTraces: traces of the repository's own functional tests against EndpointTrace.tla / LifecycleTrace.tla); `cd /verif && /venv/bin/python -m vf.extra`; reports in evidence/extra/, never a property alarm",
+                "join_or_cancel / wait of the asyncio backend; Endpoint.tla: the stream packet endpoints, async and blocking; Stapled.tla: the four stapled transports over harness-owned halves; exact replay of TLC behaviours; SuiteTraces: traces of the repository's own functional tests against EndpointTrace.tla / LifecycleTrace.tla); `cd /verif && /venv/bin/python -m vf.extra`; reports in evidence/extra/, never a property alarm",
             },
         ],
         "checks": checks,
